@@ -386,7 +386,9 @@ def check(col, prog, tier, profile, fixture=None):
         else:
             col.violation("G2", key, b.loc(), "Line::between is not new(u.y-v.y, v.x-u.x, -(a*u.x+b*u.y)): the line does not pass through both points")
     b = util.need_body(crate, "Line::dist")
-    I = util.analyse(b)
+    # other methods of Line that dist is written in terms of (signed_dist, ...) are inlined
+    lh = [m for m in crate.bodies if not m.is_closure and m.kind in ("Fn", "AssocFn") and m.key != b.key and not util.self_recursive(m) and not (crate.impl_of(m) or {}).get("derived") and not (m.name in ("new", "between") and "Line" in m.path)]
+    I = util.analyser(lh)(b)
     for st in I.final_states:
         ret = util.ret_term(st)
         ok = ret[0] == "call" and str(ret[1]).endswith("::abs")
